@@ -7,7 +7,8 @@ LEAN_MODULES = ['A5.Props.C18']
 LEVEL = 'proof'
 EXPLANATION = ('Lean theorems, for EVERY level n, every index s < 4^n and all six orientations, in exact arithmetic (Q contains every double): s_to_anchor is total; '
                'ij_to_s(anchor(s) + delta) = s for ANY point delta strictly inside the anchor\'s unit triangle; distinct indices give distinct (offset, flips); every cell lies inside the '
-               'segment triangle of side 2^n; the digit-shift transducer is invertible on every base-4 string. Finite helpers (512-row shift step, patterns, kj table, flips) are tabulated from the '
+               'segment triangle of side 2^n (all orientations); two cells never share an interior point; EVERY point of the closed segment triangle lies in the closed unit triangle of the cell whose index ij_to_s returns (`fill`: the 4^n cells exactly tile the triangle); '
+               'the digit-shift transducer is a bijection of base-4 strings (both composites are the identity). Finite helpers (512-row shift step, patterns, kj table, flips) are tabulated from the '
                'real functions on their whole domain each run and re-decided by the kernel. Named gaps tied by the check: pentagon centre strictly inside its unit triangle (16 shapes, margin checked '
                'exhaustively on low levels), IEEE rounding in ij_to_s (the executable model runs on Lean Float = C double and is compared bit for bit).')
 RULE = ('ops: s_to_anchor exhaustively for levels <= 5 (7 thorough) x 6 orientations, digit-pattern-directed and random indices up to level 28, out-of-range indices; ij_to_s on lattice points with '
